@@ -18,10 +18,15 @@
      not a fall-through);
    * the deny list (Config.DenyTrustData.KeyDenyFPsshSha256) is a LIST of key fingerprints of any
      length; the leaf key is a fingerprint too;
-   * getRequiredWebUIAuthLevel() is computed from the configured backend list.
+   * getRequiredWebUIAuthLevel() is computed from the configured backend list;
+   * the netblock test of getUsernameIfIPRestricted is COMPUTED: the leaf carries its address
+     delegation extension (families of RFC 3779 bit strings, any prefix length) and the request its
+     TCP peer; "inside" is Model/IPExt.v verify_families (the C11 model of
+     lib/certgen VerifyIPRestrictedX509CertIP) on the two, not an input bit.
    Users are numbers (0 = the empty string); levels are N bit masks. *)
 From Coq Require Import ZArith List Bool.
 From KM Require Import Base.Bytes Model.Auth.
+From KM Require Model.IPExt.
 Import ListNotations.
 Open Scope N_scope.
 
@@ -40,8 +45,13 @@ Record tlsx := {
   x_cn : N;                (* common name of the leaf (the same leaf starts every chain) *)
   x_key : N;               (* fingerprint of the leaf's public key *)
   x_nb : Z;                (* leaf NotBefore *)
-  x_ip_error : bool;       (* VerifyIPRestrictedX509CertIP(leaf, r.RemoteAddr) returned an error *)
-  x_ip_valid : bool;       (* extension present and the TCP peer inside one of its blocks *)
+  x_ip_error : bool;       (* the library steps in front of keymaster's netblock arithmetic fail: r.RemoteAddr does
+                              not split into host and port, or the extension value is not the DER of a list of
+                              address families (asn1.Unmarshal) *)
+  x_ext : option (list IPExt.family);
+                           (* the leaf's address delegation extension (OID 1.3.6.1.5.5.7.1.7) after
+                              asn1.Unmarshal: families of (bytes, bit length) strings; None = no such extension *)
+  x_peer : IPExt.peer;     (* the host of r.RemoteAddr (the TCP peer) as net.ParseIP sees it *)
   x_auto_error : bool;     (* isAutomationUser returned an error *)
   x_automation : bool;     (* CN is a configured automation identity *)
   x_revoked : bool }.      (* revocation check succeeded and says revoked *)
@@ -101,13 +111,26 @@ Definition km_user (skip_role : bool) (deny : list N) (c : tlsx) : bool :=
   | _ => false
   end.
 
+(* certgen.VerifyIPRestrictedX509CertIP(leaf, r.RemoteAddr): None = error, Some inside.
+   No extension is (false, nil); the walk over the families and their prefixes - every prefix
+   length, whole and partial octets - is IPExt.verify_families *)
+Definition ip_verify (c : tlsx) : option bool :=
+  if x_ip_error c then None
+  else match x_ext c with
+       | None => Some false
+       | Some ext => IPExt.verify_families ext (x_peer c)
+       end.
+
 (* getUsernameIfIPRestricted: (clientName, now, userErr, err) *)
 Definition ip_res (c : tlsx) : ipres :=
-  if x_ip_error c then IpErr
-  else if negb (x_ip_valid c) then IpUserErr
-  else if x_auto_error c then IpErr
-  else if negb (x_automation c) then IpUserErr
-  else if x_revoked c then IpUserErr else IpOk.
+  match ip_verify c with
+  | None => IpErr
+  | Some false => IpUserErr
+  | Some true =>
+      if x_auto_error c then IpErr
+      else if negb (x_automation c) then IpUserErr
+      else if x_revoked c then IpUserErr else IpOk
+  end.
 
 (* the certificate branch: Some result = return, None = go on to cookies *)
 Definition tls_branch (skip_role mask_test : bool) (now : Z) (deny : list N) (required : N) (c : tlsx) : option result :=
@@ -189,9 +212,18 @@ Definition km_cert (deny : list N) (c : tlsx) : Prop :=
   x_cn c <> 0 /\ ~ In (x_key c) deny /\
   exists ch, In ch (x_chains c) /\ ch_len2 ch = true /\ ch_role_ca ch = false /\ ch_key_trusted ch = true.
 
+(* the TCP peer lies in a netblock the certificate literally carries: an IPv4 prefix of at most 32
+   bits in its address delegation extension whose leading plen bits are the peer's (a statement
+   about addresses: IPExt.contains is the octet-wise mask comparison, C11 proves it equal to the
+   numeric "same leading plen bits") *)
+Definition peer_inside (c : tlsx) : Prop :=
+  exists ext blocks e b,
+    x_ext c = Some ext /\ In (IPExt.ipv4_family, blocks) ext /\ In e blocks /\ IPExt.decode e = Some b /\
+    IPExt.plen b <= 32 /\ IPExt.contains b (x_peer c) = true.
+
 (* an IP-restricted automation certificate presented from inside its netblocks *)
 Definition ip_cert (c : tlsx) : Prop :=
-  x_cn c <> 0 /\ x_ip_error c = false /\ x_ip_valid c = true /\ x_auto_error c = false /\
+  x_cn c <> 0 /\ x_ip_error c = false /\ peer_inside c /\ x_auto_error c = false /\
   x_automation c = true /\ x_revoked c = false.
 
 (* some credential among those the request carries establishes (u, l) *)
@@ -201,5 +233,11 @@ Definition proves (now : Z) (deny : list N) (q : reqx) (u l : N) : Prop :=
   (exists c, q_tls q = Some c /\ u = x_cn c /\
      (l = bKMX509 \/ l = bIPCert \/ l = N.lor bKMX509 bIPCert) /\
      (hasb l bKMX509 = true -> km_cert deny c) /\ (hasb l bIPCert = true -> ip_cert c)).
+
+(* NOT the code of the tree: the cookie test of a gate that tolerates [grace] time units past the signed
+   expiry (what a library validator with a default leeway does).  Kept to show that the window
+   statements are sharp: every positive grace admits a cookie that is not [valid_cookie]. *)
+Definition cookie_admits_with_grace (grace now : Z) (required : N) (t : token) : bool :=
+  token_ok now t && negb (t_exp t + grace <? now)%Z && hasb (t_level t) required.
 
 Definition origin_ok (q : reqx) : Prop := q_origin q = NoOrigin \/ q_origin q = SameOrigin.
